@@ -83,6 +83,7 @@ type Knobs struct {
 	Pool       string `json:"pool"`         // lifo | fresh | random | poison | real
 	PoolSeed   uint64 `json:"pool_seed"`
 	FreeRun    bool   `json:"free_run,omitempty"` // no controller: every yield returns at once (race detector pass)
+	RelRepo    bool   `json:"rel_repo,omitempty"` // no --repository: the run directory is the working directory of the (test) process and table paths are resolved relative to it
 }
 
 type SchedSpec struct {
